@@ -614,6 +614,96 @@ class H4(Case):
         return obs
 
 
+# ------------------------------------------------------------------------------------------
+# H6  history: the cached system-correlation matrix of TwoTimeBathCorrelations
+# ------------------------------------------------------------------------------------------
+BD = "oqupy.bath_dynamics"
+
+
+def _bd_int(x, *a):
+    """int(np.round(final_time/dt)) in generate_system_correlations: the matrix dimension has to be a concrete
+    Python int for slice()/np.pad (bounded, exhaustive concretisation by the engine)"""
+    from vf.env import sym_int as _si
+    return as_int(_si(x, *a))
+
+
+ENV_BD = {"extra": {BD + ".np": NpProxy(time_np_overrides()), BD + ".int": _bd_int}}
+
+
+class H6(Case):
+    """TwoTimeBathCorrelations.generate_system_correlations called for a sequence of final times on ONE object
+    (cache created empty): after every call the cached matrix must be what its implicit time axes say --
+    shape (k, k) with k the largest nearest(final_time/dt) so far, entry [i, j] == Corr(step i, step j) for
+    i <= j and NaN below the diagonal -- i.e. exactly what a fresh object asked once for that time holds."""
+    functions = ("TwoTimeBathCorrelations.__init__", "TwoTimeBathCorrelations.generate_system_correlations")
+    stubs = ("bath_dynamics.compute_correlations -> uninterpreted Corr(step_a, step_b) on the requested index grids (recording)",
+             "np.round -> nearest integer in exact real arithmetic, ties excluded by precondition")
+    env = ENV_BD
+    max_paths = 4000
+
+    def __init__(self, N, nq):
+        self.N, self.nq = N, nq
+        self.id = "H6/cache_history_N%d_q%d" % (N, nq)
+        self.bounds = {"N": N, "queries on one object": nq, "matrix dimension per query": [2, N + 1]}
+        # concrete bath (only its coupling operator / transform are read), built outside the symbolic environment
+        self.bath = oqupy.Bath(0.5 * oqupy.operators.sigma("z"),
+                               oqupy.PowerLawSD(alpha=0.1, zeta=1.0, cutoff=1.0, cutoff_type="exponential"))
+
+    def run(self, inp):
+        import oqupy.bath_dynamics as bd
+        N, dt = self.N, 0.1
+        pt = _mk_pt(N, dt)
+        system = oqupy.System(np.zeros((2, 2)))
+        bath = self.bath
+        rho0 = np.array([[0.5, 0.0], [0.0, 0.5]])
+        stub = CorrStub(inp, 2)
+        calls = []
+
+        def fake_cc(system_, pt_, op_a, op_b, times_a, times_b, time_order="ordered", initial_state=None, start_time=0.0, dt=None,
+                    progress_type=None):
+            grid = list(range(len(pt_) + 1))
+            ia, ib = grid[times_a], grid[times_b]
+            calls.append((system_, pt_, initial_state, ia, ib))
+            out = np.empty((len(ia), len(ib)), dtype=complex if inp.mode == "real" else object)
+            for x, a in enumerate(ia):
+                for y, b in enumerate(ib):
+                    out[x, y] = stub.value([a, b]) if a <= b else complex(np.nan, np.nan)
+            return [np.array(ia) * pt_.dt, np.array(ib) * pt_.dt], out
+
+        ks = [sym_int(inp, "k%d" % i, 2, N + 1) for i in range(self.nq)]
+        fts = [near_time(inp, "ft%d" % i, ks[i], 0.0, dt) for i in range(self.nq)]
+        obs = []
+        with patched({BD + ".compute_correlations": fake_cc}), _quiet():
+            obj = bd.TwoTimeBathCorrelations(system, bath, pt, initial_state=rho0)
+            kmax = None
+            for i in range(self.nq):
+                obj.generate_system_correlations(fts[i], progress_type="silent")
+                k = as_int(ks[i])
+                kmax = k if kmax is None else max(kmax, k)
+                obs += self._matrix_obs(inp, "after query %d of the history" % (i + 1), obj._system_correlations, kmax, stub)
+            fresh = bd.TwoTimeBathCorrelations(system, bath, pt, initial_state=rho0)
+            fresh.generate_system_correlations(fts[-1], progress_type="silent")
+            obs += self._matrix_obs(inp, "fresh object asked once", fresh._system_correlations, as_int(ks[-1]), stub, key="fresh")
+        obs.append(Ob.holds("system, process tensor and initial state reach compute_correlations",
+                            all(c[0] is system and c[1] is pt and c[2] is not None and np.array_equal(c[2], rho0) for c in calls),
+                            key="args"))
+        return obs
+
+    @staticmethod
+    def _matrix_obs(inp, label, mat, k, stub, key="cache"):
+        if tuple(mat.shape) != (k, k):
+            return [Ob.holds(label + ": cached matrix has shape (k, k)", False, key=key)]
+        conds = []
+        for i in range(k):
+            for j in range(k):
+                v = mat[i, j]
+                if i <= j:
+                    conds.append((not is_nan_entry(v)) and _eq_entry(v, stub.value([i, j])))
+                else:
+                    conds.append(is_nan_entry(v))
+        return [Ob.holds(label + ": entry [i, j] == Corr(step i, step j) for i <= j, NaN below the diagonal", all_of(conds), key=key)]
+
+
 def cases(tier):
     cs = []
     # ---- H1 _parse_times
@@ -627,6 +717,8 @@ def cases(tier):
            H2("ordered", ("slice", "int"), 2)]
     for part in ("desc_last_filtered", "desc_last_unfiltered"):
         cs += [H2("ordered", ("list2", "list3"), 2, part), H2("anti", ("list2", "list2"), 2, part), H2("nt", ("int", "int", "list2"), 2, part)]
+    cs += [H2("nt", ("int", "int", "int", "int"), 3)]          # earlier operators pairwise out of order (needs >= 4 operators)
+    cs += [H6(3, 2), H6(4, 3)]
     # ---- H3 dt
     cs += [H3Stub("none"), H3Stub("set"), H3Real("none"), H3Real("set"), H3Real("set", start=0.3), H3Real("none", start=-0.7),
            H3Real("set", start=0.3, pass_dt=False)]
